@@ -50,7 +50,7 @@ COMPONENTS = {
 FAULT_KINDS = ["oserror_open", "oserror_read", "oserror_mkdir", "torn", "crash", "crash_before", "files_lost_after_crash",
                "hash_seed", "walk_permutation", "creation_order", "prepopulated_output", "relative_paths",
                "unrelated_files_in_spec_tree", "spec_edited_between_runs", "failed_protocol_py_run_before", "second_generator_object_in_process", "deep_spec_files_edited_before", "types_moved_between_files_before"]
-PROBES = ["walk_order_differs_from_sorted", "fault_on_first_write", "fault_on_last_write", "retry_on_same_instance",
+PROBES = ["generation_through_build_hook", "walk_order_differs_from_sorted", "fault_on_first_write", "fault_on_last_write", "retry_on_same_instance",
           "torn_init_file", "restart_after_crash", "acronym_or_digit_type_name", "import_check", "second_run_same_instance"]
 SHRINK_KEYS = []
 CHILD = os.path.join(VERIF_DIR, "sim", "child.py")
@@ -354,12 +354,18 @@ def run_configs(ctx):
             ctx.child([{"op": "protocol_py", "script": script, "args": ["generate"],
                         "fault": {"kind": random.Random(plan["fault_seed"]).choice(["torn", "oserror_open"]), "at": k}}], "0")
             res.count("fault.failed_protocol_py_run_before")
+        # every third plan drives the packaging entry point (protocol_build_hook.py, packaging library stubbed) instead
+        # of protocol.py itself for the runs below
+        run_generate = {"op": "protocol_py", "script": script, "args": ["generate"]}
+        if plan["fault_seed"] % 3 == 0 and os.path.exists(os.path.join(ws.root, "protocol_build_hook.py")):
+            run_generate = {"op": "build_hook", "root": ws.root, "calls": ["initialize"]}
+            res.count("probe.generation_through_build_hook")
         # protocol.py over a variant whose net/client, net/server and pub/server files differ; then the real tree
         if "prepop_other" in configs and random.Random(plan["fault_seed"] ^ 77).random() < 0.5:
             variant = edited_variant(tree)
             mixed = {rel: (variant[rel] if rel.count("/") == 2 else tree[rel]) for rel in tree}
             ws.write_tree(mixed)
-            ctx.child([{"op": "rmtree", "dir": gen_dir}, {"op": "protocol_py", "script": script, "args": ["generate"]}], "0")
+            ctx.child([{"op": "rmtree", "dir": gen_dir}, run_generate], "0")
             res.count("fault.deep_spec_files_edited_before")
             for rel in sorted(tree):                      # edit in place, as a developer would: only the files that differ
                 if mixed[rel] != tree[rel]:
@@ -367,7 +373,7 @@ def run_configs(ctx):
                         f.write(tree[rel])
         else:
             ws.write_tree(tree)
-        rs = ctx.child([{"op": "protocol_py", "script": script, "args": ["generate"]}, {"op": "digest", "dir": gen_dir}], "0")
+        rs = ctx.child([run_generate, {"op": "digest", "dir": gen_dir}], "0")
         res.count("fault.prepopulated_output")
         key("prepop_other_clean")
         if not ctx.judge("clean-then-generate-over-other-tree", rs[0], rs[1]["files"]):
